@@ -43,14 +43,16 @@ fn check<T: for<'b> minicbor::Decode<'b, ()> + minicbor::Encode<()> + std::fmt::
             Err(_) => {}
         }
     }
-    // C09: damaged versions of the message (every single-bit flip, every byte replaced by an indefinite / 8-byte-length marker) decode to a value or an
+    // C09: damaged versions of the message (every single-bit flip, every byte replaced by an indefinite / 4- or 8-byte-length marker of every major type, every byte turned into an all-ones 4- or 8-byte length of its own major type) decode to a value or an
     // error — never a panic
     let prev = std::panic::take_hook(); std::panic::set_hook(Box::new(|_| {}));
     let mut dmg = |m: &[u8], how: String| { DAMAGED.with(|d| d.set(d.get() + 1));
         if std::panic::catch_unwind(std::panic::AssertUnwindSafe(|| { let _ = minicbor::decode::<T>(m); })).is_err() { println!("VIOLATED: {what} {v:?}: decoding PANICS on {} ({how} of {})", hex(m), hex(&bytes)); std::process::exit(1); } };
     for pos in 0..bytes.len().min(400) {
         for bit in 0..8 { let mut m = bytes.clone(); m[pos] ^= 1 << bit; dmg(&m, format!("bit {bit} of byte {pos} flipped")); }
-        for r in [0x1bu8, 0x5f, 0x9f, 0xbf, 0xff, 0x3b, 0xdb] { if bytes[pos] != r { let mut m = bytes.clone(); m[pos] = r; dmg(&m, format!("byte {pos} replaced by {r:#04x}")); } }
+        for r in [0x1bu8, 0x5f, 0x9f, 0xbf, 0xff, 0x3b, 0xdb, 0x5b, 0x7b, 0x9b, 0xbb, 0x9a, 0xba] { if bytes[pos] != r { let mut m = bytes.clone(); m[pos] = r; dmg(&m, format!("byte {pos} replaced by {r:#04x}")); } }
+        // the byte keeps its major type and claims the longest length there is: additional information 27 followed by eight ff bytes (and 26 followed by four)
+        for (ai, fill) in [(27u8, 8usize), (26, 4)] { let mut m = bytes[..pos].to_vec(); m.push((bytes[pos] & 0xe0) | ai); m.extend(std::iter::repeat(0xffu8).take(fill)); m.extend_from_slice(&bytes[pos + 1..]); dmg(&m, format!("byte {pos} turned into a {fill}-byte length of all ones")); }
     }
     std::panic::set_hook(prev);
     *n += 1;
